@@ -369,7 +369,7 @@ HARNESSES = [
         make=make,
         instances=_instances,
         models=["syminterp"],
-        budget={"quick": 120.0, "thorough": 900.0},
+        budget={"quick": 300.0, "thorough": 900.0},
         functions=["Part.add", "Part.remove", "Part._add_point", "Part._remove_point", "Part._cleanup_point",
                    "Part.get_point", "Part.get_or_add_point", "Part.set_quarter_duration", "Part.quarter_durations",
                    "Part.quarter_duration_map", "Part.iter_all", "Part.first_point", "Part.last_point",
